@@ -67,3 +67,21 @@ func TestVerifWitness_C02_exponent_is_not_a_group(t *testing.T) {
 	}
 	fmt.Println("WITNESS-HOLDS")
 }
+
+// C08 parser.(*Parser).parseAmount#witness: a commodity written to the right of the number and scanned as text
+// ("10 hours  ; c", "5 руб  ") has a range that ends with its own text, not after the blanks that follow it.
+func TestVerifWitness_C08_text_commodity_range_end(t *testing.T) {
+	for _, c := range []struct {
+		src  string
+		sym  string
+		cols [2]int
+	}{{"2024-01-01 x\n    assets:a  10 hours  ; c\n    assets:b\n", "hours", [2]int{18, 23}}, {"2024-01-01 x\n    assets:a  5 руб  \n    assets:b\n", "руб", [2]int{17, 20}}} {
+		j, _ := Parse(c.src)
+		a := j.Transactions[0].Postings[0].Amount
+		if a == nil || a.Commodity.Symbol != c.sym || a.Commodity.Range.Start.Column != c.cols[0] || a.Commodity.Range.End.Column != c.cols[1] {
+			fmt.Printf("WITNESS-FAILS commodity %q of %q: columns %d..%d expected, range %v\n", c.sym, c.src, c.cols[0], c.cols[1], a.Commodity.Range)
+			return
+		}
+	}
+	fmt.Println("WITNESS-HOLDS")
+}
